@@ -11,7 +11,9 @@ from . import common
 
 LEAF_PIDS = ("C08", "C09", "C12", "C13", "C20")
 GEN = os.path.join(common.COQ, "Generated", "LeafCode.v")
-DEPENDENTS = ["Proofs/LeafCodeProofs.v"]
+# C13 and C20 are about the translated functions themselves; the machine-level properties only rest on the constants (contain(), UNIT_COUNT)
+DEPENDENTS = {"C13": ["Proofs/LeafConsts.v", "Proofs/LeafCodeProofs.v"], "C20": ["Proofs/LeafConsts.v", "Proofs/LeafCodeProofs.v"],
+              "C08": ["Proofs/LeafConsts.v"], "C09": ["Proofs/LeafConsts.v"], "C12": ["Proofs/LeafConsts.v"]}
 
 def _generate(variant, out):
     r = subprocess.run([sys.executable, os.path.join(common.VERIF, "tools", "leafcode.py"), "--variant", variant, "--out", out], capture_output=True, text=True)
@@ -51,8 +53,8 @@ def recheck_generated(gen_rel, text, dependents, what):
     json.dump(out, open(res, "w"))
     return out
 
-def _recheck(text):
-    return recheck_generated("Generated/LeafCode.v", text, DEPENDENTS, "the translation of this tree")
+def _recheck(text, pid):
+    return recheck_generated("Generated/LeafCode.v", text, DEPENDENTS[pid], "the translation of this tree")
 
 def check(run):
     """adds the source-tie obligations to run.proof (which must have been computed already)"""
@@ -72,9 +74,9 @@ def check(run):
             tie["functions"] = text.count("\nDefinition ")
             if _body(text) == _body(committed):
                 tie["variants"][variant] = "identical to the committed translation (the theorems of the main build apply)"; continue
-            r = _recheck(text)
+            r = _recheck(text, run.pid)
             if r["ok"]:
-                tie["variants"][variant] = "differs from the committed translation; Proofs/LeafCodeProofs.v re-checked against it: accepted"
+                tie["variants"][variant] = "differs from the committed translation; the proofs that depend on it were re-checked against it: accepted"
             else:
                 a = _body(committed).splitlines(); b = _body(text).splitlines()
                 diff = [l for l in difflib.unified_diff(a, b, "committed", "this tree", n=0, lineterm="")][:12]
